@@ -197,4 +197,35 @@ CHECKS = {
                      "'within bounded time' is tested as 10 s (normal: well under a millisecond); the library's own 30 s I/O deadline never comes into play on these connections",
                      "a read error combined with a client that has stopped reading is not generated: back-pressure stops the server from reading, so the error cannot be observed"],
     ),
+    "C05": dict(
+        pkg="client",
+        race=True,
+        level="exploration",
+        groups=[G("^TestC05_Mux$", 300, 2000), G("^TestC05_Alloc$", 1000, 5000), G("^TestC05_Wrap$", 1, 3, shrinktime="1s", timeout="30m")],
+        rule="real CSession against a scripted raw server that holds every request and answers in a generated order: steps call (any of the 11 Session methods, unique marker in the fid), "
+             "reply (a held request chosen by index, correct reply carrying the marker or an Rerror), cancel (the caller abandons a pending call; its request stays unanswered or is answered late); "
+             "a third of the steps are issued without waiting (concurrent callers, pipelined replies); buffered and rendezvous connections. The server checks on arrival that the tag is not NOTAG and not "
+             "the tag of any received-and-unanswered request (abandoned ones included); the caller checks it got the result carrying its own marker. Plus: tag-wrap histories of 65.6k-67k calls with 1..6 early "
+             "requests left unanswered for ever, and allocateTag as a pure function (verif hook) over arbitrary in-use sets incl. nearly full and full. Built with -race. "
+             "Non-trivial = at least 2 requests outstanding and replies not in request order (Mux), a non-empty in-use set (Alloc), every wrap history.",
+        require_classes=dict(quick=["out_of_order_replies", "abandoned_answered_late", "abandoned_never_answered", "tag_wrap", "pool_depleted", "nearly_full", "rendezvous", "buffered"], thorough=[]),
+        assumptions=["the scripted server always keeps reading (it never back-pressures the client)",
+                     "allocateTag's documented precondition: the in-use map never contains NOTAG"],
+    ),
+    "C12": dict(
+        pkg="client",
+        race=True,
+        level="fault_enumeration",
+        groups=[G("^TestC12_Hostile$", 300, 3000, shrinktime="15s")],
+        fuzz=[],
+        rule="real CSession against a misbehaving scripted server: steps call / reply (good, Rerror, wrong R type, T message) / stray reply (unknown tag, NOTAG, repeated tag) / malformed frame "
+             "(length prefix 0..3, oversize, garbage, short body, type 106, empty body) / per-call cancel / fault (peer close, I/O error on both directions, session context cancel), then further calls. "
+             "Oracle: every call returns within 10 s of the event that decides it; after a fault all pending and later calls return errors; a cancelled call returns context.Canceled; a wrong-typed reply gives "
+             "its caller an error; the process survives (a crash is recovered from the journal). After a stray or malformed frame the client may either carry on or give up on the session: both are accepted, "
+             "but the final close must release every caller. Non-trivial = at least one call pending when the misbehaviour happens.",
+        require_classes=dict(quick=["wrong_type_reply", "t_message_as_reply", "stray_unknown", "stray_notag", "stray_repeat", "malformed_badprefix", "malformed_oversize", "malformed_garbage",
+                                    "malformed_shortbody", "malformed_type106", "per_call_cancel", "fault_close", "fault_ioerr", "fault_ctxcancel", "fault_with_pending_calls", "call_after_failure"], thorough=[]),
+        assumptions=["'the connection fails' is modelled as both directions failing; a connection that fails only for writes while reads keep working is not asserted",
+                     "connection deadlines are not honoured by the buffered in-memory connection, so the library's 30 s default deadline never masks a hang"],
+    ),
 }
